@@ -31,6 +31,12 @@ CHECKS = {
  "C12": (EX, "vmc", "exhaustive small inputs x in-language laws (manual's equations and verify blocks)",
    "All arrays of length <= 3 (thorough 4) over 9 atoms (duplicates, ties, mixed types), all small objects with arbitrary keys in every insertion order, arrays of arrays, all strings of length <= 3/4 over {a, b, comma, space}; 10 key-filter laws x 11 key filters, 36 array laws, 18 object laws, 9 array-of-array laws, 18 string laws, each evaluated on every input.",
    "trusted: the laws are written from docs/stdlib.dj and evaluated by the implementation itself (metamorphic); tie-breaks of min_by/max_by and key filters that raise errors are not demanded", "DESIGN.md §2 C12"),
+ "C07": (MC, "vmc", "exhaustive values and RFC 8259 token strings; observation model + independent parser (serde_json)",
+   "All text and byte strings of length <= 2 (thorough 3) over 30 structurally significant bytes, every number representation and boundary, the float grid m*10^e and 2^k with neighbours, integers to 2^200, decimal spellings and trees with arbitrary keys in every insertion order go through tojson|fromjson (same printed form, class, bits, bytes, key order; text equal to an independent model printer) and through the command line with ten output-option sets piped back in; every string of <= 4 (thorough 5) tokens over 42 RFC 8259 tokens accepted by an independent parser must be accepted with the same value, exact integers and character-for-character non-integer literals.",
+   "trusted: serde_json (arbitrary_precision, preserve_order) as independent parser; the model printer for XJON; Float vs decimal-literal representation is not distinguished where observation-equal", "DESIGN.md §2 C07"),
+ "C13": (MC, "vmc+py", "exhaustive strings x in-language round-trip/position laws; independent consumers (dash, Python stdlib) of every formatter",
+   "All strings of length <= 2 (thorough 3) over 32 symbols (metacharacters of shell/CSV/HTML/URL, 1-4 byte characters, a lone invalid byte, NUL) as text and byte strings through 20 round-trip and position laws; 211 regexes x flag subsets x all short subjects for match/capture positions, test, splits reassembly and scan; @sh (alone, on arrays, inside a format string) evaluated by dash, @csv/@tsv/@json/@html/@uri/@base64 read back by independent readers; decoders on all short inputs must not decode a part of malformed input.",
+   "trusted: dash, Python csv/json/html/urllib/base64; NUL excluded for @sh; @urid passing malformed sequences through is accepted (nothing truncated)", "DESIGN.md §2 C13"),
 }
 PENDING = {}
 def main():
@@ -56,6 +62,7 @@ def main():
         "hooks": {"guard": "jaq_verif (reserved; no hooks are needed: every observation point is reachable through public API)", "enable": "none (checks build /repo unchanged)",
                   "baseline_off_cmd": "cd /repo && cargo test --workspace --no-fail-fast --offline", "source_commits": [], "add_only": True},
         "engines": [
+            {"name": "py", "path": "py", "serves_properties": ["C13"], "kind_free_text": "Python 3 standard-library drivers for process-level checks and independent consumers"},
             {"name": "vmc", "path": "harness/vmc", "serves_properties": sorted(CHECKS), "kind_free_text": "Rust harness: reference model (values, terms, CPS evaluator), exhaustive enumerators, trace conformance against /repo's library API"},
         ],
         "checks": checks,
